@@ -129,6 +129,9 @@ def part_aero(s):
             val += 1
             _viol(viol, "reflection", q, p2["ap.s%d_perf.%s" % (k, q)], p1["ap.s%d_perf.%s" % (k, q)], max(abs(p1["ap.s%d_perf.%s" % (k, q)][0]), 1e-3), TOL, wh)
         val += 1
+        val += 1
+        cl1 = np.array(p1["ap.s%d_perf.Cl" % k])
+        _viol(viol, "reflection", "sectional_Cl", p2["ap.s%d_perf.Cl" % k], cl1[::-1], max(np.abs(cl1).max(), 1e-3), TOL, wh)
         _viol(viol, "reflection", "mesh_point_forces", p2["ap.aero_states.s%d_mesh_point_forces" % k], p1["ap.aero_states.s%d_mesh_point_forces" % k][:, ::-1, :] * POLAR, Fsc, TOL, wh)
     for q in ("CL", "CD"):
         val += 1
